@@ -475,7 +475,8 @@ Section GN.
       apply (np_bind _ (fun _ _ => True)); [monoc|eapply np_post; [|eapply np_pre; [|apply np_unify]]; [auto|sidec]|intros _].
       apply np_ret. auto. }
     destruct ta; try apply np_fail. destruct tb; try apply np_fail.
-    - apply (np_bind _ (fun ys n => Forall (fun y => y < n) ys)); [monoc| |intros tys].
+    - apply (np_bind _ (fun _ _ => True)); [monoc|eapply np_pre; [|apply np_check_not_inside]; sidec|intros _].
+      apply (np_bind _ (fun ys n => Forall (fun y => y < n) ys)); [monoc| |intros tys].
       { eapply np_pre; [|apply (np_mapM_in (fun _ => True) (fun i n => i < n))].
         - intros; exact I.
         - intros n n' _ _; exact I.
